@@ -82,6 +82,16 @@ def run_property(prop, tier, seed, replay=None):
         errs = [l for l in out.splitlines() if l.startswith("error")][:10]
         corr_broken.append("harness does not build against /repo: " + " | ".join(errs))
 
+    # the cluster scenarios run the repository's own binary: rebuild it from the current working tree
+    if harness_ok and any(mr.model == "cluster" for mr in prop.models):
+        t0 = time.time()
+        rc2, out2 = core.sh(["cargo", "build", "--offline"], cwd=core.REPO, timeout=3600)
+        cov["repo_bin_build_s"] = round(time.time() - t0, 1)
+        if rc2 != 0:
+            harness_ok = False
+            errs = [l for l in out2.splitlines() if l.startswith("error")][:10]
+            corr_broken.append("/repo does not build: " + " | ".join(errs))
+
     if prop.table_checks and harness_ok:
         table_failures = prop.table_checks({"tier": tier, "seed": seed, "cov": cov})
 
